@@ -46,6 +46,31 @@ impl Op {
     }
 }
 
+/// what an operator symbol looks like in the input: 'P' and 'M' stand for the two-character symbols "++" and "--"
+/// (they share a prefix with the one-character operators '+' and '-')
+pub fn sym_text(c: char) -> &'static str {
+    match c {
+        'P' => "++",
+        'M' => "--",
+        '+' => "+",
+        '-' => "-",
+        '*' => "*",
+        '/' => "/",
+        '^' => "^",
+        '!' => "!",
+        _ => "?",
+    }
+}
+fn at(t: &[char], pos: usize, sym: char) -> Option<usize> {
+    let txt = sym_text(sym);
+    let n = txt.chars().count();
+    if pos + n <= t.len() && t[pos..pos + n].iter().copied().eq(txt.chars()) {
+        Some(n)
+    } else {
+        None
+    }
+}
+
 pub fn show_table(t: &[Op]) -> String {
     t.iter().map(|o| o.show()).collect::<Vec<_>>().join(" ")
 }
@@ -84,9 +109,9 @@ pub fn reference(ops: &[Op], t: &[char], pos: usize, min: u32, st: &mut RefStats
     let mut cur: Option<(usize, String)> = None;
     for o in ops.iter().filter(|o| o.kind == Kind::Pre) {
         st.steps += 1;
-        if t.get(pos) == Some(&o.sym) {
-            if let Some((e, r)) = reference(ops, t, pos + 1, o.bp as u32 * 2, st) {
-                cur = Some((e, format!("({}{})[{}..{}]#{}", o.sym, r, pos, e, e)));
+        if let Some(n) = at(t, pos, o.sym) {
+            if let Some((e, r)) = reference(ops, t, pos + n, o.bp as u32 * 2, st) {
+                cur = Some((e, format!("({}{})[{}..{}]#{}", sym_text(o.sym), r, pos, e, e)));
                 break;
             }
         }
@@ -104,10 +129,10 @@ pub fn reference(ops: &[Op], t: &[char], pos: usize, min: u32, st: &mut RefStats
     'outer: loop {
         for o in ops.iter().filter(|o| o.kind == Kind::Post) {
             st.steps += 1;
-            if t.get(p) == Some(&o.sym) {
+            if let Some(n) = at(t, p, o.sym) {
                 if o.bp as u32 * 2 + 1 >= min {
-                    p += 1;
-                    lhs = format!("({}{})[{}..{}]#{}", lhs, o.sym, pos, p, p);
+                    p += n;
+                    lhs = format!("({}{})[{}..{}]#{}", lhs, sym_text(o.sym), pos, p, p);
                     continue 'outer;
                 } else {
                     st.refused_by_power += 1;
@@ -116,10 +141,10 @@ pub fn reference(ops: &[Op], t: &[char], pos: usize, min: u32, st: &mut RefStats
         }
         for o in ops.iter().filter(|o| matches!(o.kind, Kind::InL | Kind::InR)) {
             st.steps += 1;
-            if t.get(p) == Some(&o.sym) {
+            if let Some(n) = at(t, p, o.sym) {
                 if lp(o) >= min {
-                    if let Some((e, r)) = reference(ops, t, p + 1, rp(o), st) {
-                        lhs = format!("({}{}{})[{}..{}]#{}", lhs, o.sym, r, pos, e, e);
+                    if let Some((e, r)) = reference(ops, t, p + n, rp(o), st) {
+                        lhs = format!("({}{}{})[{}..{}]#{}", lhs, sym_text(o.sym), r, pos, e, e);
                         p = e;
                         continue 'outer;
                     } else {
@@ -206,7 +231,26 @@ macro_rules! mk_inf {
     }};
 }
 
+fn is_double(o: &Op) -> bool {
+    sym_text(o.sym).len() > 1
+}
+
+/// an operator whose symbol is a two-character sequence (`just("++")`)
+fn boxed_op_text<'a>(o: Op) -> BOp<'a> {
+    let s = sym_text(o.sym);
+    let sym = just::<_, &'a str, Ex<'a>>(s).ignored();
+    match o.kind {
+        Kind::Pre => prefix(scaled(o.bp), sym, move |_, r: String, e: &mut MX<'a, '_>| format!("({s}{r}){}", sp(e))).boxed(),
+        Kind::Post => postfix(scaled(o.bp), sym, move |l: String, _, e: &mut MX<'a, '_>| format!("({l}{s}){}", sp(e))).boxed(),
+        Kind::InL => infix(left(scaled(o.bp)), sym, move |l: String, _, r: String, e: &mut MX<'a, '_>| format!("({l}{s}{r}){}", sp(e))).boxed(),
+        Kind::InR => infix(right(scaled(o.bp)), sym, move |l: String, _, r: String, e: &mut MX<'a, '_>| format!("({l}{s}{r}){}", sp(e))).boxed(),
+    }
+}
+
 fn boxed_op<'a>(o: Op) -> BOp<'a> {
+    if is_double(&o) {
+        return boxed_op_text(o);
+    }
     match o.kind {
         Kind::Pre => mk_pre!(o).boxed(),
         Kind::Post => mk_post!(o).boxed(),
@@ -249,6 +293,9 @@ pub fn build_vec<'a>(ops: &[Op]) -> BP<'a> {
 
 /// `atom.boxed().pratt((op.boxed(), ..))` — tuple of boxed operators, boxed atom
 pub fn build_boxed_tuple<'a>(ops: &[Op]) -> Option<BP<'a>> {
+    if ops.iter().any(is_double) {
+        return None;
+    }
     let a = atom_nr().boxed();
     Some(match ops {
         [o1] => finish(a.pratt((boxed_op(*o1),))),
@@ -291,6 +338,9 @@ pub fn build_tuple<'a>(ops: &[Op]) -> Option<BP<'a>> {
     macro_rules! t1 { ($a:ident) => { finish(atom_nr().pratt((pick!(ops[0], $a),))) }; }
     macro_rules! t2 { ($a:ident $b:ident) => { finish(atom_nr().pratt((pick!(ops[0], $a), pick!(ops[1], $b)))) }; }
     macro_rules! t3 { ($a:ident $b:ident $c:ident) => { finish(atom_nr().pratt((pick!(ops[0], $a), pick!(ops[1], $b), pick!(ops[2], $c)))) }; }
+    if ops.iter().any(is_double) {
+        return None;
+    }
     let ks: Vec<u8> = ops.iter().map(|o| kcode(o.kind)).collect();
     Some(match ks.as_slice() {
         [0] => t1!(P),
@@ -340,6 +390,21 @@ pub fn build_tuple<'a>(ops: &[Op]) -> Option<BP<'a>> {
 
 pub const SYMS: [char; 6] = ['+', '-', '*', '/', '^', '!'];
 
+/// symbols of the units with two-character operators: "+", "++", "-"
+pub const SYMS_DOUBLE: [char; 3] = ['+', 'P', '-'];
+
+pub fn all_ops_over(syms: &[char], npow: u16) -> Vec<Op> {
+    let mut v = vec![];
+    for k in [Kind::Pre, Kind::Post, Kind::InL, Kind::InR] {
+        for s in syms {
+            for bp in 0..npow {
+                v.push(Op { kind: k, sym: *s, bp });
+            }
+        }
+    }
+    v
+}
+
 pub fn all_ops(nsym: usize, npow: u16) -> Vec<Op> {
     let mut v = vec![];
     for k in [Kind::Pre, Kind::Post, Kind::InL, Kind::InR] {
@@ -365,7 +430,8 @@ pub fn table_at(ops: &[Op], k: usize, mut idx: usize) -> Vec<Op> {
 
 pub fn is_unspecified(t: &[Op]) -> bool {
     // one symbol declared both postfix and infix: all postfix operators are tried before any infix one
-    t.iter().any(|a| a.kind == Kind::Post && t.iter().any(|b| matches!(b.kind, Kind::InL | Kind::InR) && b.sym == a.sym))
+    // (also when one symbol's text is a prefix of the other's: "+" and "++" can both match at the same place)
+    t.iter().any(|a| a.kind == Kind::Post && t.iter().any(|b| matches!(b.kind, Kind::InL | Kind::InR) && (sym_text(b.sym).starts_with(sym_text(a.sym)) || sym_text(a.sym).starts_with(sym_text(b.sym)))))
 }
 
 pub fn strings(alpha: &[char], l: usize) -> Vec<String> {
@@ -395,6 +461,8 @@ pub struct PrattUnit {
     pub len: usize,
     /// see POWER_SCALE
     pub scale: u8,
+    /// operator symbols "+", "++", "-" (a two-character symbol sharing a prefix with a one-character one); Vec form only
+    pub doubles: bool,
 }
 
 fn run_one<'a>(p: &BP<'a>, s: &'a str) -> Result<(Option<String>, usize, bool), String> {
@@ -495,9 +563,13 @@ pub fn run_unit(u: &PrattUnit, cx: &ShardCtx) -> UnitResult {
 }
 
 fn run_unit0(u: &PrattUnit, cx: &ShardCtx) -> UnitResult {
-    let ops = all_ops(u.nsym, u.npow);
+    let ops = if u.doubles { all_ops_over(&SYMS_DOUBLE, u.npow) } else { all_ops(u.nsym, u.npow) };
     let mut alpha = vec!['x', '?'];
-    alpha.extend(&SYMS[..u.nsym]);
+    if u.doubles {
+        alpha = vec!['x', '+', '-'];
+    } else {
+        alpha.extend(&SYMS[..u.nsym]);
+    }
     let ins = strings(&alpha, u.len);
     let mut r = UnitResult { name: u.name.clone(), exhaustive: true, ..Default::default() };
     let mut distinct = HashSet::new();
@@ -539,16 +611,18 @@ fn run_unit0(u: &PrattUnit, cx: &ShardCtx) -> UnitResult {
 pub fn units(tier: Tier) -> Vec<PrattUnit> {
     let q = tier == Tier::Quick;
     let mut v = vec![
-        PrattUnit { name: "pratt-upto2-3sym-3pow".into(), nsym: 3, npow: 3, ks: vec![0, 1, 2], len: if q { 6 } else { 7 }, scale: 0 },
-        PrattUnit { name: "pratt-3ops-2sym-2pow".into(), nsym: 2, npow: 2, ks: vec![3], len: if q { 6 } else { 8 }, scale: 0 },
+        PrattUnit { name: "pratt-upto2-3sym-3pow".into(), nsym: 3, npow: 3, ks: vec![0, 1, 2], len: if q { 6 } else { 7 }, scale: 0, doubles: false },
+        PrattUnit { name: "pratt-3ops-2sym-2pow".into(), nsym: 2, npow: 2, ks: vec![3], len: if q { 6 } else { 8 }, scale: 0, doubles: false },
     ];
+    // operator symbols that share a prefix ("+" and "++"): an operator attempt that consumed a token and failed is undone
+    v.push(PrattUnit { name: "pratt-upto2-two-character-symbols".into(), nsym: 3, npow: 2, ks: vec![1, 2], len: if q { 6 } else { 7 }, scale: 0, doubles: true });
     // the same tables with their powers spread over the whole u16 range (0, 20000, 40000, 65535): only the order matters
-    v.push(PrattUnit { name: "pratt-upto2-3sym-3pow-spread-powers".into(), nsym: 3, npow: 3, ks: vec![1, 2], len: if q { 5 } else { 6 }, scale: 1 });
+    v.push(PrattUnit { name: "pratt-upto2-3sym-3pow-spread-powers".into(), nsym: 3, npow: 3, ks: vec![1, 2], len: if q { 5 } else { 6 }, scale: 1, doubles: false });
     if !q {
-        v.push(PrattUnit { name: "pratt-3ops-2sym-3pow-spread-powers".into(), nsym: 2, npow: 3, ks: vec![3], len: 6, scale: 1 });
-        v.push(PrattUnit { name: "pratt-3ops-3sym-3pow".into(), nsym: 3, npow: 3, ks: vec![3], len: 6, scale: 0 });
-        v.push(PrattUnit { name: "pratt-4ops-2sym-2pow".into(), nsym: 2, npow: 2, ks: vec![4], len: 7, scale: 0 });
-        v.push(PrattUnit { name: "pratt-upto2-6sym-4pow".into(), nsym: 6, npow: 4, ks: vec![1, 2], len: 5, scale: 0 });
+        v.push(PrattUnit { name: "pratt-3ops-2sym-3pow-spread-powers".into(), nsym: 2, npow: 3, ks: vec![3], len: 6, scale: 1, doubles: false });
+        v.push(PrattUnit { name: "pratt-3ops-3sym-3pow".into(), nsym: 3, npow: 3, ks: vec![3], len: 6, scale: 0, doubles: false });
+        v.push(PrattUnit { name: "pratt-4ops-2sym-2pow".into(), nsym: 2, npow: 2, ks: vec![4], len: 7, scale: 0, doubles: false });
+        v.push(PrattUnit { name: "pratt-upto2-6sym-4pow".into(), nsym: 6, npow: 4, ks: vec![1, 2], len: 5, scale: 0, doubles: false });
     }
     v
 }
@@ -558,7 +632,7 @@ pub fn units(tier: Tier) -> Vec<PrattUnit> {
 /// engine decides "the span of the sub-expression being built".
 pub fn units_spans(tier: Tier) -> Vec<PrattUnit> {
     let q = tier == Tier::Quick;
-    vec![PrattUnit { name: "pratt-fold-spans-upto2-3sym-2pow".into(), nsym: 3, npow: 2, ks: vec![1, 2], len: if q { 5 } else { 7 }, scale: 0 }]
+    vec![PrattUnit { name: "pratt-fold-spans-upto2-3sym-2pow".into(), nsym: 3, npow: 2, ks: vec![1, 2], len: if q { 5 } else { 7 }, scale: 0, doubles: false }]
 }
 
 pub fn replay(v: &Value) -> Result<Option<String>, String> {
